@@ -31,7 +31,7 @@ def shards(tier, seed):
     out = []
     n = 10 if tier == "quick" else 20
     for i in range(n):
-        out.append({"kind": "random", "mode": ("sync", "noise", "pct")[i % 3], "runs": 90 if tier == "quick" else 2500,
+        out.append({"kind": "random", "mode": ("sync", "noise", "pct")[i % 3], "runs": 90 if tier == "quick" else 8000,
                     "transport": ("pipe", "tcp")[i % 2]})
     nsw = 6 if tier == "quick" else 12
     for i in range(nsw):
